@@ -12,7 +12,7 @@ from .common import CD, LX, PC, PU, ckey
 
 P = "C14"
 EXPLANATION = (
-    "Static rules D14.1-D14.5 (DESIGN.md section 5, C14): the three transports of a generic request carry the same "
+    "Static rules D14.1-D14.6 (DESIGN.md section 5, C14): the three transports of a generic request carry the same "
     "(service, class/instance/attribute path, data) triple in the same order (byte-layout of both _setup_message bodies and of "
     "wrap_unconnected_send, with identical service normalisation), the Unconnected Send wrapper against CIP 3-5.5.4 (service 0x52 "
     "to class 6 instance 1, embedded length = len(message) of exactly the embedded message, pad iff odd, then the route), "
@@ -362,3 +362,44 @@ def d14_5(ctx):
         call, kw = _gm_call(ctx, lxm[m], lx.module)
         got = {"service": _cv(ctx, kw.get("service"), lx.module), "class": _cv(ctx, kw.get("class_code"), lx.module)}
         ctx.check(got["service"] == sp[key]["service"] and got["class"] == sp[key]["class"] and atom_name(kw.get("instance")) == "instance_id", ckey(f"{lx.key}.{m}"), call or lxm[m], f"service {sp[key]['service']} class {sp[key]['class']} on the template instance", f"{m}: {got}; expected service {sp[key]['service']} class {sp[key]['class']} instance instance_id", got=got)
+
+
+@rule(P, "D14.6", "T-WITNESS", floor=4)
+def d14_6(ctx):
+    """set_plc_time delivers the timestamp it was given - including 0 (the epoch, falsy) - and the client clock only for None:
+    the helper is folded (sa/miniinterp.py) with the structure encoder, the clock and generic_message replaced by witnesses."""
+    from ..miniinterp import Obj, run_function
+
+    lx = ctx.model.cls("pycomm3.logix_driver:LogixDriver")
+    fn = lx.methods.get("set_plc_time")
+    if fn is None:
+        ctx.undecided(ckey(lx.key + ".set_plc_time"), lx.node, "anchor vanished")
+        return
+    p = fn.args.args[1].arg
+    us = ctx.folder.module_value("pycomm3.logix_driver", "SEC_TO_US")
+    for w in (0, 1, 1_700_000_000_000_000, None):
+        sent = {}
+
+        def hook(call, env, it, _sent=sent):
+            path = attr_path(call.func) or ""
+            if path == "time.time":
+                return 1234.5
+            if call_name(call) == "Struct":
+                return Obj(kind="struct")
+            if isinstance(call.func, ast.Attribute) and call.func.attr == "encode" and isinstance(env.get(atom_name(call.func.value)), Obj):
+                return ("encoded", it.ev(call.args[0], env))
+            if path == "self.generic_message":
+                _sent.update({k.arg: it.ev(k.value, env) for k in call.keywords if k.arg in ("request_data",)})
+                return Obj(kind="tag")
+            return UNKNOWN
+
+        kind, res = run_function(ctx, lx.module, fn, {"self": Obj(), p: w}, call_hook=hook, deep=False)
+        key = ckey(lx.key + ".set_plc_time", f"witness:{w}")
+        if kind != "return" or "request_data" not in sent:
+            ctx.undecided(key, fn, f"set_plc_time not foldable on microseconds={w!r}: {kind} {res}")
+            continue
+        rd = sent["request_data"]
+        fields = list(rd[1]) if isinstance(rd, tuple) and rd and rd[0] == "encoded" and isinstance(rd[1], (list, tuple)) else None
+        want = w if w is not None else (int(1234.5 * us) if isinstance(us, int) else None)
+        ok = fields is not None and len(fields) == 3 and fields[-1] == want
+        ctx.check(ok, key, fn, f"set_plc_time({w!r}) sends the time {want!r}", f"set_plc_time({w!r}) sends {fields!r}; the time field must be {want!r}" + (" (0 is a valid timestamp: the epoch; only None means 'use the client clock')" if w == 0 else ""), fields=str(fields))
